@@ -74,9 +74,12 @@ class Covobs:
                 if not self._cov[i][j] == self._cov[j][i]:
                     raise Exception('Covariance matrix is non-symmetric for (%d, %d' % (i, j))
 
+        if np.any(np.diag(self._cov) < 0):
+            raise Exception('Covariance matrix is not positive-semidefinite!')
         evals = np.linalg.eigvalsh(self._cov)
         for ev in evals:
-            if ev < 0:
+            # a vanishing eigenvalue of a singular matrix comes out of the solver with rounding noise of either sign
+            if ev < -self.N * np.finfo(np.float64).eps * np.max(np.abs(evals)):
                 raise Exception('Covariance matrix is not positive-semidefinite!')
 
     def _set_grad(self, grad):
